@@ -55,6 +55,7 @@ pub struct Core {
     pub partition: Option<(usize, usize)>,
     /// true while running the deviation-free schedule in a partition that does not own it
     pub first_is_foreign: bool,
+    pub oracle_steps: u64,
     pub deadline: Option<std::time::Instant>,
     pub stopped_by_deadline: bool,
     // statistics
@@ -82,6 +83,7 @@ impl Core {
             forced: Vec::new(),
             partition: None,
             first_is_foreign: false,
+            oracle_steps: 0,
             deadline: None,
             stopped_by_deadline: false,
             executions: 0,
@@ -135,6 +137,7 @@ impl Core {
     }
 
     fn begin(&mut self) -> bool {
+        parking_lot::verif_rt::set_oracle_mode(false);
         if self.done {
             return false;
         }
@@ -184,6 +187,20 @@ impl Core {
         if self.prefer_high {
             ids.reverse();
         }
+        if parking_lot::verif_rt::oracle_mode() || self.divergence.is_some() {
+            // default choice, no node: oracle work is not explored
+            self.oracle_steps += 1;
+            let cur = current.map(usize::from);
+            let cur_ok = cur.map(|c| ids.contains(&c)).unwrap_or(false);
+            let pick = if cur_ok && !is_yielding {
+                cur.unwrap()
+            } else if cur_ok {
+                ids.iter().copied().find(|&i| i != cur.unwrap()).unwrap_or(cur.unwrap())
+            } else {
+                ids[0]
+            };
+            return Some(TaskId::from(pick));
+        }
         if self.depth == self.stack.len() {
             let cur = current.map(usize::from);
             let cur_ok = cur.map(|c| ids.contains(&c)).unwrap_or(false);
@@ -206,7 +223,9 @@ impl Core {
                         idx,
                         choices.len()
                     ));
-                    return None;
+                    // do not abandon the execution (destructors of the subject would run outside
+                    // the runtime and abort the process): finish it with default choices
+                    return Some(TaskId::from(choices[0]));
                 }
             }
             self.nodes_created += 1;
@@ -226,7 +245,7 @@ impl Core {
                 "replay divergence at decision {}: task {} not runnable (runnable {:?})",
                 self.depth, choice, ids
             ));
-            return None;
+            return Some(TaskId::from(ids[0]));
         }
         if n.idx > 0 {
             self.devs += 1;
